@@ -8,7 +8,7 @@ CFG = dict(
                        "C08_cut_fixed_concat", "C08_cut_writes_partition", "C08_unit_cut_sound", "C08_lzip_scan_sound",
                        "C08_lzma2_units_independent", "C08_lzma2_unit_cut_sound", "C08_lzma2_reader_sound",
                        "C08_lzma2_reader_complete", "C08_lzma2_cut_units", "C08_lzma2_mt_reader_data",
-                       "C08_lzma2_mt_writer_data", "C08_lzip_units_data"],
+                       "C08_lzma2_mt_writer_data", "C08_lzma2_mt_writer_mt_reader", "C08_lzip_units_data"],
     rule=MT_RULE,
     trusted_base=MT_TB,
     assumptions=[
